@@ -992,24 +992,32 @@ func (p *PubSub) processLoop(ctx context.Context) {
 			p.handleDeadPeers()
 
 		case treq := <-p.getTopics:
+			verifYield(verifLoopRequest)
 			var out []string
 			for t := range p.mySubs {
 				out = append(out, t)
 			}
 			treq.resp <- out
 		case topic := <-p.addTopic:
+			verifYield(verifLoopRequest)
 			p.handleAddTopic(topic)
 		case topic := <-p.rmTopic:
+			verifYield(verifLoopRequest)
 			p.handleRemoveTopic(topic)
 		case sub := <-p.cancelCh:
+			verifYield(verifLoopRequest)
 			p.handleRemoveSubscription(sub)
 		case sub := <-p.addSub:
+			verifYield(verifLoopRequest)
 			p.handleAddSubscription(sub)
 		case relay := <-p.addRelay:
+			verifYield(verifLoopRequest)
 			p.handleAddRelay(relay)
 		case topic := <-p.rmRelay:
+			verifYield(verifLoopRequest)
 			p.handleRemoveRelay(topic)
 		case preq := <-p.getPeers:
+			verifYield(verifLoopRequest)
 			tmap, ok := p.topics[preq.topic]
 			if preq.topic != "" && !ok {
 				preq.resp <- nil
@@ -1038,6 +1046,7 @@ func (p *PubSub) processLoop(ctx context.Context) {
 					in.s.Conn().RemotePeer(), in.s.Protocol())
 			}
 		case msg := <-p.sendMsg:
+			verifYield(verifLoopRequest)
 			// The message was checked against the blacklist before it entered the
 			// validation pipeline; its forwarder or author may have been blacklisted
 			// while it was being validated.
@@ -1054,18 +1063,23 @@ func (p *PubSub) processLoop(ctx context.Context) {
 			p.publishMessage(msg)
 
 		case batchAndOpts := <-p.sendMessageBatch:
+			verifYield(verifLoopRequest)
 			p.publishMessageBatch(batchAndOpts)
 
 		case req := <-p.addVal:
+			verifYield(verifLoopRequest)
 			p.val.AddValidator(req)
 
 		case req := <-p.rmVal:
+			verifYield(verifLoopRequest)
 			p.val.RemoveValidator(req)
 
 		case thunk := <-p.eval:
+			verifYield(verifLoopRequest)
 			thunk()
 
 		case pid := <-p.blacklistPeer:
+			verifYield(verifLoopRequest)
 			p.logger.Info("Blacklisting peer", "peer", pid)
 			p.blacklist.Add(pid)
 
